@@ -346,6 +346,21 @@ fn spawn_async_ao_list_in_task'''),
         ('digit-equal-radix-accepted', PA, 'if digit_val >= radix {', 'if digit_val > radix {'),
         ('base-65-accepted', PA, 'if !(2..=64).contains(&radix) {', 'if !(2..=65).contains(&radix) {'),
     ],
+    'U8': [
+        ('subscript-relative-to-max-key-not-past-it', 'brush-core/src/variables.rs', 'Some((max_key, _)) => max_key.wrapping_add(1),', 'Some((max_key, _)) => *max_key,'),
+        ('negative-subscript-never-errors', 'brush-core/src/variables.rs', '''        if index_value < 0 {
+            return Err(error::ErrorKind::ArrayIndexOutOfRange(index_str.to_owned()).into());
+        }
+''', ''),
+        ('int-append-plain-add', 'brush-core/src/variables.rs', '''                            let int_value = base
+                                .parse::<i64>()
+                                .unwrap_or(0)
+                                .wrapping_add(suffix.parse::<i64>().unwrap_or(0));''', '''                            let int_value = base
+                                .parse::<i64>()
+                                .unwrap_or(0)
+                                + suffix.parse::<i64>().unwrap_or(0);'''),
+        ('int-append-saturates', 'brush-core/src/variables.rs', '''                                .wrapping_add(suffix.parse::<i64>().unwrap_or(0));''', '''                                .saturating_add(suffix.parse::<i64>().unwrap_or(0));'''),
+    ],
     'U10': [
         ('dollar-not-regex-special', 'brush-core/src/regex.rs', "'\\\\' | '^' | '$' | '.' | '|'", "'\\\\' | '^' | '.' | '|'"),
         ('translator-drops-escape-of-plus', 'brush-parser/src/pattern.rs', "'*' | '?' | '.' | '+' | '^'", "'*' | '?' | '.' | '^'"),
